@@ -11,6 +11,23 @@ from kernels import KCFG
 BLK_PARTS = (["blk128_%s_%d" % (d, r) for d in ("enc", "dec") for r in (40, 48, 56)] +
              ["blk64_%s_%d" % (d, r) for d in ("enc", "dec") for r in (32, 36, 40)])
 QUICK_BLK = ["blk128_enc_40", "blk128_dec_56", "blk64_enc_36", "blk64_dec_32"]
+# key-schedule functions: every accepted key size, rejected sizes, tweaked keys, tweak changes for both round counts
+def key_parts(w, quick):
+    bs = 16 if w == "128" else 8
+    fam = "key" + w
+    r2, r3 = (48, 56) if w == "128" else (36, 40)
+    if quick:
+        sk = [bs, bs + 1, 2 * bs - 1, 2 * bs, 2 * bs + 3, 3 * bs - 2, 3 * bs]; skbad = [bs - 1, 3 * bs + 1]
+        stk = [bs, bs + 3, 2 * bs]; stkbad = [2 * bs + 1]
+        st = [(r2, 1), (r3, bs - 1), (r2, bs), (r3, "null")]; stbad = [(r3, 0), (r2, bs + 1)]
+    else:
+        sk = list(range(bs, 3 * bs + 1)); skbad = [0, 1, bs - 1, 3 * bs + 1, 4 * bs, 2**31, 2**32 - 1]
+        stk = list(range(bs, 2 * bs + 1)); stkbad = [0, bs - 1, 2 * bs + 1, 3 * bs, 2**32 - 1]
+        st = [(r, t) for r in (r2, r3) for t in list(range(1, bs + 1)) + ["null"]]; stbad = [(r3, 0), (r2, bs + 1), (r3, 2**32 - 1)]
+    return (["%s_sk_%d" % (fam, n) for n in sk + skbad] + ["%s_stk_%d" % (fam, n) for n in stk + stkbad] +
+            ["%s_st_%d_%s" % (fam, r, t) for r, t in st + stbad])
+def parts_sk(w, quick): return [p for p in key_parts(w, quick) if "_sk_" in p]
+def parts_tweak(w, quick): return [p for p in key_parts(w, quick) if "_stk_" in p or "_st_" in p]
 
 def one(repo_copy, gen, cfg, part):
     gv = os.path.join(gen, "Whole_%s_%s.v" % (cfg, part))
